@@ -91,7 +91,7 @@ Junk == [inf |-> FALSE, x |-> PZero, y |-> PZero]        \* placeholder for "not
 
 \* obs.E[v] = [enc: Encode(), id: IsIdentity(), y: witness bytes, sq: witness claims y^2 = g(x)]
 \* result: [st |-> "ok" | "invalid" | "cert", p |-> point, why |-> text]
-ReadPoint(o, cur) ==
+ReadPointEnc(o, cur) ==
   IF o.id = cur.inf /\ o.enc = Sec!Encode(cur)
   THEN [st |-> "ok", p |-> cur, why |-> ""]                                   \* unchanged: nothing to re-check
   ELSE IF o.id
@@ -109,6 +109,28 @@ ReadPoint(o, cur) ==
                     THEN [st |-> "invalid", p |-> Junk, why |-> "encoded x is not the abscissa of a curve point"]
                     ELSE [st |-> "cert", p |-> Junk, why |-> "witness proves nothing"]
 
+\* When the build lets the harness read them, obs.E[v] also carries the STORED coordinates (sx, sy, sz: limbs as 32
+\* big-endian bytes) and an untrusted affine certificate (ax, ay).  The element is then what the stored coordinates
+\* represent -- X = sx * 2^-256 etc., (X : Y : Z) -- whatever Encode and IsIdentity say: those become observers that
+\* are themselves checked ("element-encode-observer", "isidentity-observer"), and the history goes on from the stored value.
+\* The point Encode reports serves as the certificate (x * Z = X, y * Z = Y: one solution); only when it fails is the
+\* harness's own certificate looked at.
+HasRaw(o) == "sz" \in DOMAIN o
+RawCoord(bs) == PMul(OS2IPW(bs), RInvP)
+ReadPoint(o, cur) ==
+  LET viaEnc == ReadPointEnc(o, cur) IN
+  IF ~HasRaw(o) \/ viaEnc.st = "cert" THEN viaEnc
+  ELSE LET X == RawCoord(o.sx)  Y == RawCoord(o.sy)  Z == RawCoord(o.sz) IN
+       IF viaEnc.st = "ok" /\ (IF Z = PZero THEN viaEnc.p.inf ELSE ~viaEnc.p.inf /\ PMul(viaEnc.p.x, Z) = X /\ PMul(viaEnc.p.y, Z) = Y)
+       THEN viaEnc
+       ELSE IF Z = PZero
+       THEN [st |-> IF o.id THEN "element-encode-observer" ELSE "isidentity-observer", p |-> C!Inf, why |-> "stored Z = 0"]
+       ELSE IF ~(BytesLtP(o.ax) /\ BytesLtP(o.ay)) THEN [st |-> "cert", p |-> Junk, why |-> "no affine certificate"]
+       ELSE LET ax == OS2IPW(o.ax)  ay == OS2IPW(o.ay) IN
+            IF ~(PMul(ax, Z) = X /\ PMul(ay, Z) = Y) THEN [st |-> "cert", p |-> Junk, why |-> "affine certificate does not fit the stored coordinates"]
+            ELSE IF ~C!OnCurve(C!Pt(ax, ay)) THEN [st |-> "invalid", p |-> Junk, why |-> "the stored coordinates are not those of a curve point"]
+            ELSE [st |-> IF o.id THEN "isidentity-observer" ELSE "element-encode-observer", p |-> C!Pt(ax, ay), why |-> "stored coordinates"]
+
 ObsE == Conc([v \in 1..NEv |-> ReadPoint(Ev.obs.E[v], E[v])])
 \* obs.S[v] = Scalar.Encode() bytes
 \* obs.Seq[v] = the stored representation equals the canonical one of that value (probe through Equal)
@@ -125,7 +147,7 @@ ReadScalar(bs, canon, sl) ==
   ELSE IF BytesLtN(bs) /\ canon = 1 THEN [st |-> "ok", v |-> OS2IPW(bs)] ELSE [st |-> "invalid", v |-> NZero]
 HasSl == "Sl" \in DOMAIN Ev.obs
 ObsS == Conc([v \in 1..NSv |-> ReadScalar(Ev.obs.S[v], Ev.obs.Seq[v], IF HasSl THEN Ev.obs.Sl[v] ELSE << >>)])
-ObserverOff(st) == st \in {"encode-observer", "equal-observer"}
+ObserverOff(st) == st \in {"encode-observer", "equal-observer", "isidentity-observer", "element-encode-observer"}
 
 PointOfBytes(xb, yb) == C!Pt(OS2IPW(xb), OS2IPW(yb))     \* certificates on E'
 HCert(c) == [q0 |-> PointOfBytes(c.q0x, c.q0y),
@@ -270,6 +292,10 @@ Verdict(oe, os) ==
     THEN << "DISAGREE", IF Ev.op = "ESetRaw" /\ Ev.obs.E[Ev.r].id # AllZero(Ev.z) THEN "isidentity-observer"
                         ELSE IF Ev.op = "ERescale" /\ Ev.obs.E[Ev.r].id # E[Ev.r].inf THEN "isidentity-observer"
                         ELSE "result", 0 >>
+  \* the call itself is right about the stored coordinates; Encode / IsIdentity are wrong about an element it wrote
+  ELSE IF \E v \in 1..NEv : ObserverOff(oe[v].st) /\ (v \in RecvE(Ev) \/ E'[v] # E[v])
+    THEN LET v == CHOOSE v \in 1..NEv : ObserverOff(oe[v].st) /\ (v \in RecvE(Ev) \/ E'[v] # E[v])
+         IN  << "DISAGREE", oe[v].st, << v, "element" >> >>
   \* the call itself is right about the stored values; Encode / Equal are wrong about a scalar it wrote
   ELSE IF \E v \in 1..NSv : ObserverOff(os[v].st) /\ (v \in RecvS(Ev) \/ S'[v] # S[v])
     THEN LET v == CHOOSE v \in 1..NSv : ObserverOff(os[v].st) /\ (v \in RecvS(Ev) \/ S'[v] # S[v])
